@@ -24,6 +24,12 @@ func (db *DB) Merge() error {
 	// 前置校验读取的活跃文件, merge 状态与统计值均可能被并发修改, 需在持有锁时进行
 	db.mu.Lock()
 
+	// 实例关闭后不再持有目录的文件锁, 不允许再操作数据目录 (后台 merge 协程的定时触发可能晚于 Close)
+	if db.closed {
+		db.mu.Unlock()
+		return ErrDBClosed
+	}
+
 	// 校验数据是否为空
 	if db.activeFile == nil {
 		db.mu.Unlock()
